@@ -31,3 +31,7 @@ let () =
         Printf.printf "W %d %d %s\n" id k (rows_str d.v_want);
         Printf.printf "G %d %d %s\n" id k (match d.v_got with Some l -> orows_str l | None -> "-")
       end) v.cv_dbs) Cases.cases
+
+(* R <index> <1|0>: the transcribed regexp-stage grammar (re_plan) against what the Go grammar answered *)
+let () =
+  List.iteri (fun i (re, want) -> Printf.printf "R %d %s\n" i (b2s (re_plan re = want))) Cases.recases
